@@ -13,7 +13,7 @@
 use std::alloc::{GlobalAlloc, Layout, System};
 use std::cell::UnsafeCell;
 use std::io::Cursor;
-use std::sync::atomic::{AtomicBool, Ordering};
+use std::sync::atomic::{AtomicBool, AtomicUsize, Ordering};
 
 use kestrel_crypto as kc;
 use kestrel_crypto::{AsymFileFormat, PayloadKey, PrivateKey, PublicKey};
@@ -148,21 +148,65 @@ fn commit(addr: usize, seen: Seen) {
 
 pub struct WatchAlloc;
 
+// C11: live / peak heap bytes (requested sizes), kept next to the C20 observation.  Plain atomics:
+// the counters never allocate and do not change what the allocator hands out.
+static LIVE: AtomicUsize = AtomicUsize::new(0);
+static PEAK: AtomicUsize = AtomicUsize::new(0);
+
+#[inline]
+fn mem_add(n: usize) {
+    let now = LIVE.fetch_add(n, Ordering::Relaxed).wrapping_add(n);
+    PEAK.fetch_max(now, Ordering::Relaxed);
+}
+#[inline]
+fn mem_sub(n: usize) {
+    LIVE.fetch_sub(n, Ordering::Relaxed);
+}
+/// bytes currently allocated through the global allocator
+pub fn mem_live() -> usize {
+    LIVE.load(Ordering::Relaxed)
+}
+/// highest value of `mem_live()` since the last `mem_reset_peak()`
+pub fn mem_peak() -> usize {
+    PEAK.load(Ordering::Relaxed)
+}
+/// restarts the peak measurement at the current live size; returns that size
+pub fn mem_reset_peak() -> usize {
+    let l = LIVE.load(Ordering::Relaxed);
+    PEAK.store(l, Ordering::Relaxed);
+    l
+}
+
 unsafe impl GlobalAlloc for WatchAlloc {
     unsafe fn alloc(&self, layout: Layout) -> *mut u8 {
-        System.alloc(layout)
+        let p = System.alloc(layout);
+        if !p.is_null() {
+            mem_add(layout.size());
+        }
+        p
     }
     unsafe fn alloc_zeroed(&self, layout: Layout) -> *mut u8 {
-        System.alloc_zeroed(layout)
+        let p = System.alloc_zeroed(layout);
+        if !p.is_null() {
+            mem_add(layout.size());
+        }
+        p
     }
     unsafe fn dealloc(&self, ptr: *mut u8, layout: Layout) {
         let seen = inspect(ptr, layout.size());
         commit(ptr as usize, seen);
+        mem_sub(layout.size());
         System.dealloc(ptr, layout)
     }
     unsafe fn realloc(&self, ptr: *mut u8, layout: Layout, new_size: usize) -> *mut u8 {
         let seen = inspect(ptr, layout.size());
         let new = System.realloc(ptr, layout, new_size);
+        if !new.is_null() {
+            // while a block grows both sizes can be live inside the system allocator; count the new
+            // size first so that the peak is not under-estimated
+            mem_add(new_size);
+            mem_sub(layout.size());
+        }
         if !new.is_null() && new != ptr {
             // the old block was released with whatever it held
             commit(ptr as usize, seen);
